@@ -1,7 +1,860 @@
-//! C15 — harness not built yet.
+//! C15 — joined numerals are normalised to their decimal value.
+//!
+//! Two levels: (a) the numeral parser through the hook `verif_parse_numeral` (volume), compared with the Coq model
+//! `Model.Numeric.parse` and with the expected rendering of the value the numeral was generated from;
+//! (b) the whole pipeline with a dictionary that tags digits and units as numerals (JoinNumericPlugin).
 use crate::common::*;
+use serde_json::{json, Value};
+use std::path::{Path, PathBuf};
+use sudachi::analysis::stateless_tokenizer::StatelessTokenizer;
+use sudachi::analysis::{Mode, Tokenize};
+use sudachi::config::ConfigBuilder;
+use sudachi::dic::build::DictBuilder;
+use sudachi::dic::dictionary::JapaneseDictionary;
+use sudachi::dic::storage::{Storage, SudachiDicData};
+use sudachi::plugin::path_rewrite::join_numeric::verif_parse_numeral;
 
-pub fn run(_args: &Args) {
-    eprintln!("no harness for C15 yet");
-    std::process::exit(2);
+pub const KANJI_DIGITS: [char; 10] = ['〇', '一', '二', '三', '四', '五', '六', '七', '八', '九'];
+pub const FULLWIDTH_DIGITS: [char; 10] = ['０', '１', '２', '３', '４', '５', '６', '７', '８', '９'];
+const SMALL_UNITS: [(usize, char); 3] = [(3, '千'), (2, '百'), (1, '十')];
+const LARGE_UNITS: [(usize, char); 3] = [(12, '兆'), (8, '億'), (4, '万')];
+
+// ------------------------------------------------------------------------------------------------ dictionary
+/// rows appended to sudachi/tests/resources/lex.csv: numeral units, separators, a few katakana words
+pub const EXTRA_ROWS: &str = "\
+十,9,9,2478,十,名詞,数詞,*,*,*,*,ジュウ,十,*,A,*,*,*,*
+百,9,9,2478,百,名詞,数詞,*,*,*,*,ヒャク,百,*,A,*,*,*,*
+千,9,9,2478,千,名詞,数詞,*,*,*,*,セン,千,*,A,*,*,*,*
+万,9,9,2478,万,名詞,数詞,*,*,*,*,マン,万,*,A,*,*,*,*
+億,9,9,2478,億,名詞,数詞,*,*,*,*,オク,億,*,A,*,*,*,*
+兆,9,9,2478,兆,名詞,数詞,*,*,*,*,チョウ,兆,*,A,*,*,*,*
+\",\",8,8,3000,\",\",補助記号,読点,*,*,*,*,\",\",\",\",*,A,*,*,*,*
+.,8,8,3000,.,補助記号,句点,*,*,*,*,.,.,*,A,*,*,*,*
+円,8,8,3000,円,名詞,普通名詞,助数詞可能,*,*,*,エン,円,*,A,*,*,*,*
+コーヒー,7,7,4000,コーヒー,名詞,普通名詞,一般,*,*,*,コーヒー,コーヒー,*,A,*,*,*,*
+カップ,7,7,4000,カップ,名詞,普通名詞,一般,*,*,*,カップ,カップ,*,A,*,*,*,*
+";
+
+pub fn read_repo(rel: &str) -> Vec<u8> {
+    std::fs::read(format!("{}/{}", repo(), rel)).unwrap_or_else(|e| panic!("cannot read {}: {}", rel, e))
+}
+
+/// compiles tests/resources/lex.csv + extra rows against matrix_10x10.def
+pub fn compile_system(extra_rows: &str) -> Vec<u8> {
+    let mut lex = read_repo("sudachi/tests/resources/lex.csv");
+    lex.extend_from_slice(b"\n");
+    lex.extend_from_slice(extra_rows.as_bytes());
+    let conn = read_repo("sudachi/tests/resources/matrix_10x10.def");
+    let mut b = DictBuilder::new_system();
+    b.read_conn(&conn[..]).expect("matrix");
+    b.read_lexicon(&lex[..]).expect("lexicon");
+    b.resolve().expect("resolve");
+    let mut out = Vec::new();
+    b.compile(&mut out).expect("compile");
+    out
+}
+
+/// resource directory (char.def, rewrite.def, unk.def) under the work directory
+pub fn resource_dir(work: &Path, name: &str, char_def_rel: &str) -> PathBuf {
+    let d = work.join(name);
+    std::fs::create_dir_all(&d).unwrap();
+    std::fs::write(d.join("char.def"), read_repo(char_def_rel)).unwrap();
+    std::fs::write(d.join("rewrite.def"), read_repo("resources/rewrite.def")).unwrap();
+    std::fs::write(d.join("unk.def"), read_repo("resources/unk.def")).unwrap();
+    d
+}
+
+pub fn load_dict(dic: &[u8], res: &Path, path_rewrite: Value) -> JapaneseDictionary {
+    let cfg = json!({
+        "path": res.to_string_lossy(),
+        "characterDefinitionFile": "char.def",
+        "inputTextPlugin": [{"class": "com.worksap.nlp.sudachi.DefaultInputTextPlugin"}],
+        "oovProviderPlugin": [{"class": "com.worksap.nlp.sudachi.SimpleOovPlugin",
+                               "oovPOS": ["名詞", "普通名詞", "一般", "*", "*", "*"], "leftId": 8, "rightId": 8, "cost": 6000}],
+        "pathRewritePlugin": path_rewrite,
+    });
+    let cfg = ConfigBuilder::from_bytes(cfg.to_string().as_bytes()).unwrap().build();
+    JapaneseDictionary::from_cfg_storage(&cfg, SudachiDicData::new(Storage::Owned(dic.to_vec()))).expect("dictionary loads")
+}
+
+#[derive(Clone, Debug)]
+pub struct Tok {
+    pub begin: usize,
+    pub end: usize,
+    pub surface: String,
+    pub norm: String,
+    pub pos: Vec<String>,
+    pub oov: bool,
+    pub dic_form: String,
+    pub reading: String,
+}
+
+pub fn tokenize(dict: &JapaneseDictionary, text: &str) -> Result<Vec<Tok>, String> {
+    let r = catch(|| {
+        let t = StatelessTokenizer::new(dict);
+        let ms = t.tokenize(text, Mode::C, false).map_err(|e| format!("{:?}", e))?;
+        let mut v = vec![];
+        for m in ms.iter() {
+            v.push(Tok {
+                begin: m.begin(),
+                end: m.end(),
+                surface: m.surface().to_string(),
+                norm: m.normalized_form().to_string(),
+                pos: m.part_of_speech().to_vec(),
+                oov: m.is_oov(),
+                dic_form: m.dictionary_form().to_string(),
+                reading: m.reading_form().to_string(),
+            });
+        }
+        Ok::<_, String>(v)
+    });
+    match r {
+        Ok(Ok(v)) => Ok(v),
+        Ok(Err(e)) => Err(format!("Err({})", e)),
+        Err(p) => Err(format!("Panic({})", p)),
+    }
+}
+
+// ------------------------------------------------------------------------------------------------ generators
+#[derive(Clone, Copy, PartialEq)]
+enum Style {
+    Ascii,
+    Kanji,
+    Mixed,
+}
+
+fn digit(d: u32, st: Style, rng: &mut Rng) -> char {
+    match st {
+        Style::Ascii => char::from_digit(d, 10).unwrap(),
+        Style::Kanji => KANJI_DIGITS[d as usize],
+        Style::Mixed => {
+            if rng.chance(1, 2) {
+                char::from_digit(d, 10).unwrap()
+            } else {
+                KANJI_DIGITS[d as usize]
+            }
+        }
+    }
+}
+
+fn style(rng: &mut Rng) -> Style {
+    *rng.pick(&[Style::Ascii, Style::Ascii, Style::Kanji, Style::Mixed])
+}
+
+fn digits_str(ds: &[u32], st: Style, rng: &mut Rng) -> String {
+    ds.iter().map(|d| digit(*d, st, rng)).collect()
+}
+
+fn rand_digits(n: usize, first_nonzero: bool, rng: &mut Rng) -> Vec<u32> {
+    (0..n).map(|i| if i == 0 && first_nonzero { 1 + rng.below(9) as u32 } else { rng.below(10) as u32 }).collect()
+}
+
+fn ascii(ds: &[u32]) -> String {
+    ds.iter().map(|d| char::from_digit(*d, 10).unwrap()).collect()
+}
+
+fn strip_frac(fp: &[u32]) -> String {
+    let mut v = fp.to_vec();
+    while v.last() == Some(&0) {
+        v.pop();
+    }
+    if v.is_empty() {
+        String::new()
+    } else {
+        format!(".{}", ascii(&v))
+    }
+}
+
+fn rand_len(rng: &mut Rng) -> usize {
+    match rng.below(10) {
+        0 => 1,
+        1..=5 => 1 + rng.below(8) as usize,
+        6..=8 => 5 + rng.below(30) as usize,
+        _ => 30 + rng.below(120) as usize,
+    }
+}
+
+fn group3(ds: &[u32], st: Style, rng: &mut Rng) -> String {
+    // first group 1..3 digits, then groups of three
+    let n = ds.len();
+    let mut s = String::new();
+    for (i, d) in ds.iter().enumerate() {
+        if i > 0 && (n - i) % 3 == 0 {
+            s.push(',');
+        }
+        s.push(digit(*d, st, rng));
+    }
+    s
+}
+
+/// a group 1..9999 written with 千百十 (coefficient 一 optional), optionally with a positional tail
+fn small_group(n: u32, st: Style, rng: &mut Rng) -> String {
+    let ds = [n / 1000 % 10, n / 100 % 10, n / 10 % 10, n % 10];
+    let cut = rng.below(4) as usize; // the lowest `cut` digits are written positionally
+    let cut = if rng.chance(2, 3) { 0 } else { cut };
+    let mut s = String::new();
+    let mut any_unit = false;
+    for (k, (exp, u)) in SMALL_UNITS.iter().enumerate() {
+        if *exp < cut.max(1) {
+            break;
+        }
+        let d = ds[k];
+        if d > 0 {
+            if d > 1 || rng.chance(1, 4) {
+                s.push(digit(d, st, rng));
+            }
+            s.push(*u);
+            any_unit = true;
+        }
+    }
+    let tail_digits = cut.max(1);
+    let tail: Vec<u32> = ds[4 - tail_digits..].to_vec();
+    let tail_val: u32 = tail.iter().fold(0, |a, d| a * 10 + d);
+    if tail_val > 0 || !any_unit {
+        let pad = rng.chance(1, 2) && any_unit;
+        let mut t = tail.clone();
+        if !pad {
+            while t.len() > 1 && t[0] == 0 {
+                t.remove(0);
+            }
+        }
+        s.push_str(&digits_str(&t, st, rng));
+    }
+    s
+}
+
+fn positional_group(n: u32, st: Style, rng: &mut Rng, allow_comma: bool) -> String {
+    let ds: Vec<u32> = n.to_string().chars().map(|c| c.to_digit(10).unwrap()).collect();
+    if allow_comma && ds.len() == 4 && rng.chance(1, 3) {
+        group3(&ds, st, rng)
+    } else {
+        digits_str(&ds, st, rng)
+    }
+}
+
+/// unit notation of v (0 < v < 10^16); returns text
+fn unit_notation(v: u64, rng: &mut Rng, force_units: bool) -> String {
+    let st = style(rng);
+    let groups = [(v / 1_0000_0000_0000) % 10000, (v / 1_0000_0000) % 10000, (v / 10000) % 10000, v % 10000];
+    let mut s = String::new();
+    for (k, g) in groups.iter().enumerate() {
+        if *g == 0 {
+            continue;
+        }
+        let g = *g as u32;
+        let positional = !force_units && rng.chance(1, 3);
+        if positional || (k == 3 && v < 10000 && false) {
+            s.push_str(&positional_group(g, st, rng, true));
+        } else {
+            s.push_str(&small_group(g, st, rng));
+        }
+        if k < 3 {
+            s.push(LARGE_UNITS[k].1);
+        }
+    }
+    s
+}
+
+fn has_unit(s: &str) -> bool {
+    s.chars().any(|c| "十百千万億兆".contains(c))
+}
+
+pub struct Numeral {
+    pub text: String,
+    pub expected: String,
+    pub tag: &'static str,
+}
+
+/// a well-formed numeral derived from a value, with the rendering of that value
+pub fn gen_wellformed(rng: &mut Rng) -> Numeral {
+    match rng.below(12) {
+        0 | 1 => {
+            let n = rand_len(rng);
+            let ds = rand_digits(n, rng.chance(3, 4), rng);
+            let st = style(rng);
+            Numeral { text: digits_str(&ds, st, rng), expected: ascii(&ds), tag: "plain_digits" }
+        }
+        2 | 3 => {
+            let n = rand_len(rng);
+            let ds = rand_digits(n, true, rng);
+            let st = style(rng);
+            Numeral { text: group3(&ds, st, rng), expected: ascii(&ds), tag: "grouped" }
+        }
+        4 | 5 => {
+            let n = rand_len(rng).min(40);
+            let ip = rand_digits(n, rng.chance(3, 4), rng);
+            let mut fp = rand_digits(1 + rng.below(8) as usize, false, rng);
+            if rng.chance(1, 3) {
+                let z = 1 + rng.below(3) as usize;
+                fp.extend(std::iter::repeat(0).take(z));
+            }
+            if rng.chance(1, 10) {
+                fp = vec![0; 1 + rng.below(3) as usize];
+            }
+            let st = style(rng);
+            let grouped = ip[0] != 0 && rng.chance(1, 3);
+            let ips = if grouped { group3(&ip, st, rng) } else { digits_str(&ip, st, rng) };
+            Numeral {
+                text: format!("{}.{}", ips, digits_str(&fp, st, rng)),
+                expected: format!("{}{}", ascii(&ip), strip_frac(&fp)),
+                tag: if grouped { "grouped_fraction" } else { "fraction" },
+            }
+        }
+        6 | 7 | 8 => {
+            // unit notation of a value below 10^16
+            let v = loop {
+                let mag = 1 + rng.below(16) as u32;
+                let mut v = rng.next() % 10u64.pow(mag);
+                if rng.chance(1, 3) {
+                    // round values: many zero groups / digits
+                    let z = rng.below(mag as u64) as u32;
+                    v = v / 10u64.pow(z) * 10u64.pow(z);
+                }
+                if v > 0 {
+                    break v;
+                }
+            };
+            let mut t = unit_notation(v, rng, false);
+            if !has_unit(&t) {
+                t = unit_notation(v.max(10), rng, true);
+                if !has_unit(&t) {
+                    return Numeral { text: t.clone(), expected: ref_plain(&t).unwrap(), tag: "plain_digits" };
+                }
+                return Numeral { text: t, expected: v.max(10).to_string(), tag: "units" };
+            }
+            let last_is_digit = t.chars().last().map(|c| !"十百千万億兆".contains(c)).unwrap_or(false);
+            if last_is_digit && rng.chance(1, 4) {
+                let fp = rand_digits(1 + rng.below(4) as usize, false, rng);
+                let st = style(rng);
+                return Numeral { text: format!("{}.{}", t, digits_str(&fp, st, rng)), expected: format!("{}{}", v, strip_frac(&fp)), tag: "units_fraction" };
+            }
+            Numeral { text: t, expected: v.to_string(), tag: "units" }
+        }
+        9 | 10 => {
+            // coefficient with a fraction times unit(s): 1.5千, 2.5億, 1.5百万
+            let ip = rand_digits(1 + rng.below(3) as usize, true, rng);
+            let fp = rand_digits(1 + rng.below(3) as usize, false, rng);
+            let (s, l) = loop {
+                let s = rng.below(4) as usize;
+                let l = *rng.pick(&[0usize, 0, 4, 8, 12]);
+                if s + l > 0 {
+                    break (s, l);
+                }
+            };
+            let st = style(rng);
+            let mut t = format!("{}.{}", digits_str(&ip, st, rng), digits_str(&fp, st, rng));
+            if s > 0 {
+                t.push(SMALL_UNITS[3 - s].1);
+            }
+            if l > 0 {
+                t.push(LARGE_UNITS.iter().find(|x| x.0 == l).unwrap().1);
+            }
+            let mut all = ip.clone();
+            all.extend(fp.iter());
+            let e = s + l;
+            let expected = if e >= fp.len() {
+                let mut d = all.clone();
+                d.extend(std::iter::repeat(0).take(e - fp.len()));
+                ascii(&d)
+            } else {
+                let cut = ip.len() + e;
+                format!("{}{}", ascii(&all[..cut]), strip_frac(&all[cut..]))
+            };
+            Numeral { text: t, expected, tag: "fraction_times_unit" }
+        }
+        _ => {
+            // long digit string times a large unit (values far beyond u64)
+            let n = 1 + rng.below(60) as usize;
+            let ds = rand_digits(n, true, rng);
+            let (l, u) = *rng.pick(&LARGE_UNITS);
+            let st = style(rng);
+            let mut e = ds.clone();
+            e.extend(std::iter::repeat(0).take(l));
+            Numeral { text: format!("{}{}", digits_str(&ds, st, rng), u), expected: ascii(&e), tag: "digits_times_large_unit" }
+        }
+    }
+}
+
+pub struct Malformed {
+    pub text: String,
+    /// Some(e): the parser must reject with this error state; None: only "never a wrong value" is checked
+    pub want_err: Option<u8>,
+    pub tag: &'static str,
+}
+
+pub fn gen_malformed(rng: &mut Rng) -> Malformed {
+    let st = style(rng);
+    match rng.below(10) {
+        0 | 1 | 2 => {
+            // bad separator positions in an integer
+            let n = 2 + rng.below(12) as usize;
+            let ds = rand_digits(n, true, rng);
+            let kind = rng.below(7);
+            let t = match kind {
+                0 => {
+                    // some later group is not three digits long
+                    let mut parts: Vec<String> = vec![];
+                    let mut i = 1 + rng.below(3.min(n as u64 - 1)) as usize;
+                    parts.push(digits_str(&ds[..i], st, rng));
+                    let mut bad = false;
+                    while i < n {
+                        let mut g = if rng.chance(1, 2) { 3 } else { 1 + rng.below(5) as usize };
+                        g = g.min(n - i);
+                        if g != 3 {
+                            bad = true;
+                        }
+                        parts.push(digits_str(&ds[i..i + g], st, rng));
+                        i += g;
+                    }
+                    if !bad {
+                        parts.push(digits_str(&[7, 7], st, rng));
+                    }
+                    parts.join(",")
+                }
+                1 => format!("{},{}", digits_str(&rand_digits(4 + rng.below(3) as usize, true, rng), st, rng), digits_str(&ds[..3.min(n)], st, rng)),
+                2 => format!(",{}", group3(&ds, st, rng)),
+                3 => format!("{},", group3(&ds, st, rng)),
+                4 => format!("{},,{}", digit(ds[0], st, rng), digits_str(&[1, 2, 3], st, rng)),
+                5 => format!("{},{}", digits_str(&vec![0; 1 + rng.below(3) as usize], st, rng), digits_str(&[1, 2, 3], st, rng)),
+                _ => format!("{},{}", digits_str(&ds[..1], st, rng), digits_str(&rand_digits(4, false, rng), st, rng)),
+            };
+            Malformed { text: t, want_err: Some(2), tag: "bad_comma" }
+        }
+        3 | 4 => {
+            let ds = rand_digits(1 + rng.below(6) as usize, true, rng);
+            let fp = rand_digits(1 + rng.below(4) as usize, false, rng);
+            let a = digits_str(&ds, st, rng);
+            let f = digits_str(&fp, st, rng);
+            let t = match rng.below(6) {
+                0 => format!("{}.", a),
+                1 => format!(".{}", f),
+                2 => format!("{}..{}", a, f),
+                3 => format!("{}.{}.{}", a, f, f),
+                4 => ".".to_string(),
+                _ => format!("{}万.{}", a, f),
+            };
+            Malformed { text: t, want_err: Some(1), tag: "bad_point" }
+        }
+        5 | 6 | 7 => {
+            // units out of order or repeated: take a unit notation with at least two units of one kind and swap / duplicate
+            for _ in 0..50 {
+                let v = 1 + rng.next() % 10u64.pow(1 + rng.below(16) as u32);
+                let t: Vec<char> = unit_notation(v, rng, true).chars().collect();
+                let small: Vec<usize> = (0..t.len()).filter(|i| "十百千".contains(t[*i])).collect();
+                let large: Vec<usize> = (0..t.len()).filter(|i| "万億兆".contains(t[*i])).collect();
+                let mut u = t.clone();
+                match rng.below(3) {
+                    0 if large.len() >= 2 => {
+                        let i = rng.below(large.len() as u64 - 1) as usize;
+                        u.swap(large[i], large[i + 1]);
+                    }
+                    1 => {
+                        // swap two neighbouring small units inside one group
+                        let mut done = false;
+                        for w in small.windows(2) {
+                            if !t[w[0]..w[1]].iter().any(|c| "万億兆".contains(*c)) {
+                                u.swap(w[0], w[1]);
+                                done = true;
+                                break;
+                            }
+                        }
+                        if !done {
+                            continue;
+                        }
+                    }
+                    2 if !small.is_empty() || !large.is_empty() => {
+                        let all: Vec<usize> = small.iter().chain(large.iter()).cloned().collect();
+                        let i = *rng.pick(&all);
+                        u.insert(i + 1, t[i]);
+                    }
+                    _ => continue,
+                }
+                return Malformed { text: u.into_iter().collect(), want_err: Some(0), tag: "units_out_of_order" };
+            }
+            Malformed { text: "億万".to_string(), want_err: Some(0), tag: "units_out_of_order" }
+        }
+        _ => {
+            // random short string over the numeral alphabet
+            let alpha: Vec<char> = "0123456789〇一二三五九十百千万億兆,.,.".chars().collect();
+            let n = 1 + rng.below(9) as usize;
+            let t: String = (0..n).map(|_| *rng.pick(&alpha)).collect();
+            Malformed { text: t, want_err: None, tag: "random_alphabet" }
+        }
+    }
+}
+
+// ------------------------------------------------------------------------------------------------ reference evaluator
+fn digit_val(c: char) -> Option<u32> {
+    if let Some(d) = c.to_digit(10) {
+        if c.is_ascii() {
+            return Some(d);
+        }
+    }
+    KANJI_DIGITS.iter().position(|k| *k == c).map(|p| p as u32)
+}
+
+fn unit_exp(c: char) -> Option<usize> {
+    match c {
+        '十' => Some(1),
+        '百' => Some(2),
+        '千' => Some(3),
+        '万' => Some(4),
+        '億' => Some(8),
+        '兆' => Some(12),
+        _ => None,
+    }
+}
+
+/// plain digit strings with an optional fraction: leading zeros kept, trailing fractional zeros dropped
+pub fn ref_plain(s: &str) -> Option<String> {
+    let mut ip = vec![];
+    let mut fp = vec![];
+    let mut seen_point = false;
+    for c in s.chars() {
+        if c == '.' {
+            if seen_point {
+                return None;
+            }
+            seen_point = true;
+        } else if let Some(d) = digit_val(c) {
+            if seen_point {
+                fp.push(d)
+            } else {
+                ip.push(d)
+            }
+        } else {
+            return None;
+        }
+    }
+    if ip.is_empty() || (seen_point && fp.is_empty()) {
+        return None;
+    }
+    Some(format!("{}{}", ascii(&ip), strip_frac(&fp)))
+}
+
+const FRAC: u32 = 12;
+pub enum RefVal {
+    Value(String),
+    IllFormed,
+    Unsupported,
+}
+
+/// exact evaluation (fixed point, 12 fractional digits, u128) of the natural reading of a numeral with units
+/// (sum of coefficient x small unit inside a group, group x large unit); separators already removed.
+/// Deliberately lenient about well-formedness (order of units, a point without fractional digits): the oracle built on
+/// it says "if this was joined, the value must be this one"; rejection of malformed strings is checked separately on
+/// the directed malformed classes.  Rendering without leading zeros.
+pub fn ref_units(s: &str) -> RefVal {
+    let one = 10u128.pow(FRAC);
+    let cs: Vec<char> = s.chars().collect();
+    let mut i = 0;
+    let (mut total, mut sub) = (0u128, 0u128);
+    let mut pending: Option<u128> = None;
+    let mut sub_any = false; // something was added to the current group
+    while i < cs.len() {
+        if let Some(e) = unit_exp(cs[i]) {
+            if e < 4 {
+                let c = pending.take().unwrap_or(one);
+                match c.checked_mul(10u128.pow(e as u32)).and_then(|x| sub.checked_add(x)) {
+                    Some(x) => sub = x,
+                    None => return RefVal::Unsupported,
+                }
+                sub_any = true;
+            } else {
+                if pending.is_none() && !sub_any {
+                    return RefVal::IllFormed; // a large unit needs something to multiply
+                }
+                let c = match sub.checked_add(pending.take().unwrap_or(0)) {
+                    Some(c) => c,
+                    None => return RefVal::Unsupported,
+                };
+                sub_any = false;
+                match c.checked_mul(10u128.pow(e as u32)).and_then(|x| total.checked_add(x)) {
+                    Some(x) => total = x,
+                    None => return RefVal::Unsupported,
+                }
+                sub = 0;
+            }
+            i += 1;
+            continue;
+        }
+        // a coefficient: digits with at most one point, digits on both sides
+        let (mut ip, mut fp) = (vec![], vec![]);
+        let mut seen_point = false;
+        while i < cs.len() && unit_exp(cs[i]).is_none() {
+            if cs[i] == '.' {
+                if seen_point {
+                    return RefVal::IllFormed;
+                }
+                seen_point = true;
+            } else if let Some(d) = digit_val(cs[i]) {
+                if seen_point {
+                    fp.push(d)
+                } else {
+                    ip.push(d)
+                }
+            } else {
+                return RefVal::IllFormed;
+            }
+            i += 1;
+        }
+        if ip.is_empty() || pending.is_some() {
+            return RefVal::IllFormed;
+        }
+        if ip.len() > 22 || fp.len() > FRAC as usize {
+            return RefVal::Unsupported;
+        }
+        let mut m = 0u128;
+        for d in &ip {
+            m = m * 10 + *d as u128;
+        }
+        let mut f = 0u128;
+        for k in 0..FRAC as usize {
+            f = f * 10 + *fp.get(k).unwrap_or(&0) as u128;
+        }
+        match m.checked_mul(one).and_then(|x| x.checked_add(f)) {
+            Some(x) => pending = Some(x),
+            None => return RefVal::Unsupported,
+        }
+    }
+    let v = match total.checked_add(sub).and_then(|x| x.checked_add(pending.unwrap_or(0))) {
+        Some(v) => v,
+        None => return RefVal::Unsupported,
+    };
+    let ip = v / one;
+    let fp: Vec<u32> = format!("{:012}", v % one).chars().map(|c| c.to_digit(10).unwrap()).collect();
+    RefVal::Value(format!("{}{}", ip, strip_frac(&fp)))
+}
+
+fn strip_leading_zeros(s: &str) -> String {
+    let t = s.trim_start_matches('0');
+    if t.is_empty() || t.starts_with('.') {
+        format!("0{}", t)
+    } else {
+        t.to_string()
+    }
+}
+
+/// "never a wrong value": if a string over the numeral alphabet was accepted / joined with normalised form `norm`,
+/// `norm` must be the value of the string with separators removed.  None = fine, Some(why) = wrong.
+pub fn wrong_value(text: &str, norm: &str) -> Option<String> {
+    let t: String = text.chars().filter(|c| *c != ',').collect();
+    if !has_unit(&t) {
+        return match ref_plain(&t) {
+            Some(v) if v == norm => None,
+            Some(v) => Some(format!("normalised form {:?} but the digits denote {:?}", norm, v)),
+            None => Some(format!("ill-formed digit string was given the value {:?}", norm)),
+        };
+    }
+    match ref_units(&t) {
+        RefVal::Value(v) if strip_leading_zeros(norm) == v => None,
+        RefVal::Value(v) => Some(format!("normalised form {:?} but the value is {:?}", norm, v)),
+        RefVal::IllFormed => Some(format!("string with no reading as a number was given the value {:?}", norm)),
+        RefVal::Unsupported => None,
+    }
+}
+
+// ------------------------------------------------------------------------------------------------ cases
+fn parse_case(sink: &mut Sink, text: &str, expected: Option<&str>, want_err: Option<u8>, tag: &str, verbose: bool) {
+    let r = catch(|| verif_parse_numeral(text));
+    let d = json!({"kind": "parse", "input": text, "expected": expected, "want_err": want_err, "tag": tag});
+    let (ok, err, norm) = match r {
+        Ok(x) => x,
+        Err(p) => {
+            let id = sink.case_rust_only(d, true);
+            sink.fail(id, &format!("numeral parser panicked on {:?}: {}", text, p), "");
+            return;
+        }
+    };
+    if verbose {
+        println!("implementation: verif_parse_numeral({:?}) = (accepted={}, error_state={}, normalized={:?})", text, ok, err, norm);
+        println!("expected rendering: {:?}; required error state: {:?}", expected, want_err);
+        println!("reference 'wrong value' verdict: {:?}", if ok { wrong_value(text, &norm) } else { None });
+    }
+    let term = match (expected, want_err) {
+        (Some(e), _) => format!("check_wellformed {} {} {} {} {}", ctext(text), cbool(ok), cn(err), ctext(&norm), ctext(e)),
+        (None, Some(w)) => format!("check_rejected {} {} {} {} {}", ctext(text), cbool(ok), cn(err), ctext(&norm), cn(w)),
+        (None, None) => format!("check_parse {} {} {} {}", ctext(text), cbool(ok), cn(err), ctext(&norm)),
+    };
+    sink.tag(&format!("parser:{}", tag));
+    let id = sink.case(term, d, text.chars().count() > 1);
+    if let Some(e) = expected {
+        if !ok {
+            sink.fail(id, &format!("well-formed numeral {:?} (value {}) rejected by the parser, error state {}", text, e, err), "");
+        } else if norm != e {
+            sink.fail(id, &format!("numeral {:?}: normalised form {:?}, decimal rendering of its value is {:?}", text, norm, e), "");
+        }
+    } else if let Some(w) = want_err {
+        if ok {
+            sink.fail(id, &format!("malformed numeral {:?} accepted with value {:?}", text, norm), "");
+        } else if err != w {
+            sink.fail(id, &format!("malformed numeral {:?}: error state {} (expected {})", text, err, w), "");
+        }
+    }
+    if ok {
+        if let Some(why) = wrong_value(text, &norm) {
+            if expected.is_none() || expected == Some(norm.as_str()) {
+                sink.fail(id, &format!("{:?} accepted: {}", text, why), "");
+            }
+        }
+    }
+}
+
+/// NFKC of the characters the generators use (full-width digits only)
+fn to_ascii_digits(s: &str) -> String {
+    s.chars().map(|c| FULLWIDTH_DIGITS.iter().position(|f| *f == c).map(|p| char::from_digit(p as u32, 10).unwrap()).unwrap_or(c)).collect()
+}
+
+fn pipeline_case(sink: &mut Sink, dict: &JapaneseDictionary, pre: &str, num: &str, post: &str, expected: Option<&str>, must_not_join: bool, tag: &str, verbose: bool) {
+    let text = format!("{}{}{}", pre, num, post);
+    let d = json!({"kind": "pipeline", "pre": pre, "num": num, "post": post, "expected": expected, "must_not_join": must_not_join, "tag": tag});
+    let toks = match tokenize(dict, &text) {
+        Ok(t) => t,
+        Err(e) => {
+            let id = sink.case_rust_only(d, true);
+            sink.fail(id, &format!("analysis of {:?} failed: {}", text, e), "");
+            return;
+        }
+    };
+    if verbose {
+        for t in &toks {
+            println!("implementation token {}..{} surface={:?} normalized={:?} pos={:?}", t.begin, t.end, t.surface, t.norm, t.pos);
+        }
+    }
+    let (b, e) = (pre.len(), pre.len() + num.len());
+    let inside: Vec<&Tok> = toks.iter().filter(|t| t.begin >= b && t.end <= e).collect();
+    let covered: usize = inside.iter().map(|t| t.end - t.begin).sum();
+    sink.tag(&format!("pipeline:{}", tag));
+    // Coq side: every token inside the numeral is either an untouched dictionary token (normalised form = surface after
+    // NFKC) or its normalised form is what the model parser computes for its surface; for a well-formed numeral there is
+    // exactly one token and its normalised form is the expected rendering
+    let pieces = clist(inside.iter().map(|t| cpair(&ctext(&to_ascii_digits(&t.surface)), &ctext(&t.norm))));
+    let term = match expected {
+        Some(x) => format!("check_joined {} {} {}", ctext(&to_ascii_digits(num)), pieces, ctext(x)),
+        None => format!("check_pieces {}", pieces),
+    };
+    let id = sink.case(term, d, inside.len() != num.chars().count());
+    if covered != num.len() {
+        sink.fail(id, &format!("{:?}: numeral {:?} is not covered by whole tokens (a token crosses its edge)", text, num), "");
+        return;
+    }
+    if let Some(x) = expected {
+        if inside.len() != 1 {
+            sink.fail(id, &format!("{:?}: well-formed numeral {:?} (value {}) was not joined into one token: {:?}", text, num, x, inside.iter().map(|t| t.surface.clone()).collect::<Vec<_>>()), "");
+        } else if inside[0].norm != x {
+            sink.fail(id, &format!("{:?}: numeral {:?} normalised to {:?}, decimal rendering of its value is {:?}", text, num, inside[0].norm, x), "");
+        } else if inside[0].pos.get(1).map(|s| s.as_str()) != Some("数詞") {
+            sink.fail(id, &format!("{:?}: joined numeral has part of speech {:?}", text, inside[0].pos), "");
+        }
+        return;
+    }
+    if must_not_join && inside.len() == 1 && num.chars().count() > 1 {
+        sink.fail(id, &format!("{:?}: malformed numeral {:?} joined into one token with value {:?}", text, num, inside[0].norm), "");
+    }
+    for t in &inside {
+        let s = to_ascii_digits(&t.surface);
+        if t.norm == s {
+            continue; // untouched dictionary token
+        }
+        if let Some(why) = wrong_value(&s, &t.norm) {
+            sink.fail(id, &format!("{:?}: piece {:?}: {}", text, t.surface, why), "");
+        }
+    }
+}
+
+fn fullwidth_some(s: &str, rng: &mut Rng) -> String {
+    s.chars().map(|c| if c.is_ascii_digit() && rng.chance(1, 2) { FULLWIDTH_DIGITS[c.to_digit(10).unwrap() as usize] } else { c }).collect()
+}
+
+const DIRECTED_OK: [(&str, &str); 30] = [
+    ("1000", "1000"), ("001000", "001000"), ("〇一〇〇〇", "01000"), ("00.1000", "00.1"), ("000", "000"), ("二十七", "27"),
+    ("千三百二十七", "1327"), ("千十七", "1017"), ("千三百二十七.〇五", "1327.05"), ("1万", "10000"), ("千三百二十七万", "13270000"),
+    ("千三百二十七万一四", "13270014"), ("千三百二十七万一四.〇五", "13270014.05"), ("三兆2千億千三百二十七万一四.〇五", "3200013270014.05"),
+    ("1.5千", "1500"), ("1.5百万", "1500000"), ("1.5百万1.5千20", "1501520"), ("200000000000000000000万", "2000000000000000000000000"),
+    ("2,000,000", "2000000"), ("259万2,300", "2592300"), ("1,000.5", "1000.5"), ("0", "0"), ("〇", "0"), ("0.0", "0"), ("十", "10"),
+    ("一千", "1000"), ("九千九百九十九兆九千九百九十九億九千九百九十九万九千九百九十九", "9999999999999999"), ("1.55十", "15.5"), ("3万5000", "35000"), ("1千05", "1005"),
+];
+const DIRECTED_BAD: [(&str, u8); 16] = [
+    ("三百二十百", 0), ("億万", 0), ("1.5千5百", 0), ("1.5千500", 0), ("200,00,000", 2), ("2,4", 2), ("000,000", 2), (",", 2), ("1.", 1), ("1,000.", 1),
+    (".5", 1), ("1..5", 1), ("万", 0), ("十十", 0), ("1,2345", 2), ("1234,567", 2),
+];
+
+pub fn numeric_dict(work: &Path) -> JapaneseDictionary {
+    let dic = compile_system(EXTRA_ROWS);
+    let res = resource_dir(work, "res_c15", "resources/char.def");
+    load_dict(&dic, &res, json!([{"class": "com.worksap.nlp.sudachi.JoinNumericPlugin", "enableNormalize": true}]))
+}
+
+pub fn run(args: &Args) {
+    let mut sink = Sink::new("C15", &args.out, &["Model.Numeric"], args.seed, &args.tier);
+    sink.rule("(a) numeral parser via verif_parse_numeral vs Coq model: numerals generated FROM A VALUE (plain Arabic/kanji/mixed digits up to 150 digits, comma groups, fractions with trailing zeros, unit notation 十..兆 below 10^16 with optional/positional coefficients, fraction x unit, long digit string x large unit) with the expected rendering; near-miss malformed strings (bad comma groups, dangling/double points, swapped or repeated units) with the required error state; random strings over the numeral alphabet checked against an exact fixed-point reference ('never a wrong value'); (b) the same numerals embedded in text and analysed with a dictionary tagging digits/units as numerals and JoinNumericPlugin: one token, normalised form = rendering; malformed: pieces only.  non-trivial = more than one character (parser) / at least one merge (pipeline)");
+    if let Some(p) = &args.replay {
+        let v: Value = serde_json::from_str(&std::fs::read_to_string(p).unwrap()).unwrap();
+        let c = &v["case"];
+        let want = c["want_err"].as_u64().map(|x| x as u8);
+        if c["kind"] == "parse" {
+            parse_case(&mut sink, c["input"].as_str().unwrap(), c["expected"].as_str(), want, "replay", true);
+        } else {
+            let dict = numeric_dict(&args.work);
+            pipeline_case(&mut sink, &dict, c["pre"].as_str().unwrap(), c["num"].as_str().unwrap(), c["post"].as_str().unwrap(), c["expected"].as_str(),
+                          c["must_not_join"].as_bool().unwrap_or(false), "replay", true);
+        }
+        sink.finish();
+        return;
+    }
+    let mut rng = Rng::new(args.seed);
+    // corpus / directed first
+    for (t, e) in DIRECTED_OK.iter() {
+        parse_case(&mut sink, t, Some(e), None, "directed_ok", false);
+    }
+    for (t, e) in DIRECTED_BAD.iter() {
+        parse_case(&mut sink, t, None, Some(*e), "directed_bad", false);
+    }
+    // structured mostly-valid stream
+    for _ in 0..args.n(900, 20000) {
+        let n = gen_wellformed(&mut rng);
+        parse_case(&mut sink, &n.text, Some(&n.expected), None, n.tag, false);
+    }
+    // malformed stream
+    for _ in 0..args.n(500, 10000) {
+        let m = gen_malformed(&mut rng);
+        parse_case(&mut sink, &m.text, None, m.want_err, m.tag, false);
+    }
+    // pipeline level
+    let dict = numeric_dict(&args.work);
+    let pres = ["", "京都", "に", "東京都に", "コーヒー", "1円", "12,345円と"];
+    let posts = ["", "に", "円", "京都", "カップ"];
+    for (t, e) in DIRECTED_OK.iter() {
+        pipeline_case(&mut sink, &dict, "京都", t, "円", Some(e), false, "directed_ok", false);
+    }
+    for (t, _) in DIRECTED_BAD.iter() {
+        pipeline_case(&mut sink, &dict, "", t, "円", None, true, "directed_bad", false);
+    }
+    // minimised past failure (fixed in the repository): malformed in itself AND a trailing separator
+    for t in ["十55,", "9十五522二三.", "十55.", "百1234,"] {
+        for post in ["", "円"] {
+            pipeline_case(&mut sink, &dict, "", t, post, None, true, "corpus_malformed_plus_trailing_separator", false);
+        }
+    }
+    for _ in 0..args.n(350, 6000) {
+        let n = gen_wellformed(&mut rng);
+        if n.text.contains("六三四") || n.text.chars().count() > 200 {
+            sink.tag("pipeline:skipped_shadowed_or_long");
+            continue;
+        }
+        let text = if rng.chance(1, 5) { fullwidth_some(&n.text, &mut rng) } else { n.text.clone() };
+        let pre = *rng.pick(&pres);
+        let post = *rng.pick(&posts);
+        pipeline_case(&mut sink, &dict, pre, &text, post, Some(&n.expected), false, n.tag, false);
+    }
+    for _ in 0..args.n(250, 4000) {
+        let m = gen_malformed(&mut rng);
+        if m.text.contains("六三四") {
+            continue;
+        }
+        let pre = *rng.pick(&pres);
+        let post = *rng.pick(&posts);
+        pipeline_case(&mut sink, &dict, pre, &m.text, post, None, m.want_err.is_some(), m.tag, false);
+    }
+    sink.finish();
 }
